@@ -997,8 +997,7 @@ def w_c04(args):
     stats = collections.Counter()
     full = (extra or {}).get("full") or c04_interesting(case)
     grid = _option_grid(full)
-    base = None
-    base_desc = None
+    bases = {}
     seen = {}
     for (dialect, merges), model in sorted(_models().items()):
         if dialect == "pg" and not rc.pg_fragment(case):
@@ -1027,9 +1026,11 @@ def w_c04(args):
                 rkey = "raised_" + dialect
                 seen.setdefault(rkey, []).append(desc) if isinstance(seen.get(rkey, []), list) else None
                 continue
-            if base is None:
-                base, base_desc = res[1], desc
+            # the options must not matter WITHIN a dialect (differences between dialects are C01 / C02 / C16 matters)
+            if dialect not in bases:
+                bases[dialect] = (res[1], desc)
                 continue
+            base, base_desc = bases[dialect]
             ok, why = same_table(res[1], base, ordered=ordered)
             if not ok:
                 return {"status": "violation", "nontrivial": True, "tag": "%s:%s" % (dialect, "cte" if g["use_cte_elim"] else "fmt"),
